@@ -788,6 +788,7 @@ pub struct HistObs {
     pub undefined_exactness: u64,
     pub exactness_checked: u64,
     pub later_fire_alls_upper_bound_only: u64,
+    pub later_fire_alls_owed_firings: u64,
     pub view_checks: u64,
     pub handles_issued: u64,
     pub rules_not_fired_when_unsatisfied: u64,
@@ -1175,6 +1176,8 @@ pub fn run_history(case: &HistCase, opts: &RunOpts) -> (Vec<Viol>, HistObs) {
     let exact_mode = case.all_log_only_no_loop();
     let mut slots: HashMap<usize, u64> = HashMap::new();
     let mut first_fire_all_done = false;
+    // handles inserted or updated (accepted) since the previous fire_all
+    let mut touched: std::collections::HashSet<u64> = std::collections::HashSet::new();
 
     fn lock(m: &Arc<Mutex<Mon>>) -> std::sync::MutexGuard<'_, Mon> {
         m.lock().unwrap_or_else(|p| p.into_inner())
@@ -1197,6 +1200,7 @@ pub fn run_history(case: &HistCase, opts: &RunOpts) -> (Vec<Viol>, HistObs) {
                     } else {
                         m.facts.insert(h, FactShadow { slot: *slot, ty: ty.clone(), live: true, api: fields.clone(), versions: vec![fields.clone()], uncertain: false });
                         slots.insert(*slot, h);
+                        touched.insert(h);
                     }
                 }
                 HOp::Update { slot, fields } => {
@@ -1212,6 +1216,7 @@ pub fn run_history(case: &HistCase, opts: &RunOpts) -> (Vec<Viol>, HistObs) {
                         } else {
                             let s = m.facts.get_mut(&h).unwrap();
                             s.api = fields.clone();
+                            touched.insert(h);
                         }
                     } else if r.is_err() {
                         m.obs.api_errors_on_dead_handles += 1;
@@ -1264,6 +1269,23 @@ pub fn run_history(case: &HistCase, opts: &RunOpts) -> (Vec<Viol>, HistObs) {
                         }
                         (exp, defined)
                     };
+                    // later fire_alls: a no-loop rule that has not fired since the last reset and is
+                    // satisfied by a live fact inserted or updated since the previous fire_all owes
+                    // a firing now (the statement promises it for every satisfied rule; a rule whose
+                    // only satisfying facts were already there at the previous fire_all is left to
+                    // the upper bounds, see DESIGN C06 (c))
+                    let owed_now: BTreeSet<usize> = {
+                        let m = lock(&mon);
+                        rules
+                            .iter()
+                            .enumerate()
+                            .filter(|(ri, r)| {
+                                m.fired_since_reset.get(ri).copied().unwrap_or(0) == 0
+                                    && m.facts.iter().any(|(h, s)| s.live && !s.uncertain && s.ty == r.ty && touched.contains(h) && eval(&r.cond, &s.api) == Tri::True)
+                            })
+                            .map(|(ri, _)| ri)
+                            .collect()
+                    };
                     {
                         let mut m = lock(&mon);
                         m.cur_call.clear();
@@ -1311,6 +1333,21 @@ pub fn run_history(case: &HistCase, opts: &RunOpts) -> (Vec<Viol>, HistObs) {
                             }
                         } else {
                             m.obs.later_fire_alls_upper_bound_only += 1;
+                            if exact_defined && !m.undefined_in_call {
+                                m.obs.later_fire_alls_owed_firings += owed_now.len() as u64;
+                                for ri in owed_now.difference(&fired_set) {
+                                    let r = &rules[*ri];
+                                    let d = format!(
+                                        "{}: fire_all returned {:?}; no-loop rule {} (`{}`) has not fired since the last reset and is satisfied by a live fact inserted or updated since the previous fire_all ({}) but did not fire",
+                                        label,
+                                        trunc(&returned),
+                                        r.name,
+                                        r.cond.grl(&r.ty, false),
+                                        m.facts.iter().filter(|(h, s)| s.live && s.ty == r.ty && touched.contains(h) && eval(&r.cond, &s.api) == Tri::True).map(|(_, s)| format!("#{} {:?}", s.slot, s.api)).collect::<Vec<_>>().join(", ")
+                                    );
+                                    push_viol(&mut m.viols, "fires-every-satisfied-rule-once", "rule-not-fired-since-reset-with-newly-satisfying-fact-did-not-fire", d);
+                                }
+                            }
                         }
                         // upper bound, first and later calls alike: a rule no live fact satisfies must not fire
                         if exact_defined && !m.undefined_in_call {
@@ -1324,6 +1361,7 @@ pub fn run_history(case: &HistCase, opts: &RunOpts) -> (Vec<Viol>, HistObs) {
                         }
                     }
                     first_fire_all_done = true;
+                    touched.clear();
                 }
             }
         });
